@@ -97,13 +97,28 @@ def rule_ordarm(E, R):
         if not (node.get("k") == "SItem" and node.get("ik") == "Impl" and node.get("trait", "").endswith("Compare")):
             continue
         arm = arm_variants(st, "OrderingOp")
-        if not arm or len(arm) != 1:
-            continue
-        op = arm[0]
         rv = arm_variants(st, "RhsValue")
         if not rv or len(rv) != 1:
             continue
         kind = rv[0]
+        if (not arm or len(arm) != 1):
+            # a comparator shared by all six operators (possible for Ip, whose comparator dispatches on `op` at run time)
+            if arm_variants(st, "ComparisonOpExpr") == ["Ordering"] and kind == "Ip":
+                for it in node["items"]:
+                    if it["name"] != "compare":
+                        continue
+                    hb = E.hir_by_dp.get(it["dp"])
+                    t = tail(hb["body"]) if hb and "body" in hb else {}
+                    ok = t.get("k") == "MethodCall" and norm(t.get("callee", "")) == "ast::field_expr::OrderingOp::matches_opt" and \
+                        root_is_field(t["recv"], "self", "op")
+                    arg = strip(t["args"][0]) if ok else {}
+                    ok = ok and arg.get("k") == "MethodCall" and norm(arg.get("resolved", "")) == IP_ORD and root_is_field(arg["args"][0], "self", "ip")
+                    R.check(ok, rule, CMP_COMPILE, "shared Ip comparator is op.matches_opt(value.strict_partial_cmp(literal))", where=hb["span"] if hb else "")
+                    if ok:
+                        n += 1
+                        seen |= {(o, "Ip") for o in OPS}
+            continue
+        op = arm[0]
         for it in node["items"]:
             if it["name"] != "compare":
                 continue
